@@ -19,6 +19,7 @@ import Driver.Routes
 import Driver.World
 import Driver.Aiff
 import Driver.Ledger
+import Driver.Meta
 open Sf
 
 def lawOf (s : String) : Option G711.Law :=
@@ -82,4 +83,5 @@ def main (args : List String) : IO UInt32 := do
   | "world" :: rest => WorldDriver.cmd rest
   | "aiff" :: rest => Driver.Aiff.cmd rest
   | "ledger" :: _ => LedgerDriver.cmd
+  | "meta" :: rest => do MetaCmd.run rest (← readLines)
   | _ => IO.eprintln "usage: sfmodel <g711|...> ..."; return 2
